@@ -596,6 +596,17 @@ func quiet(in HistIn, cap *capture) {
 	if in.QuietMs <= 0 {
 		return
 	}
+	// first let the scan drain: every datagram's event follows its knock, and the detector
+	// needs time linear in the number of ports already seen for each knock
+	rest := in.Frames
+	if in.Rep > 0 {
+		rest = rest[1:]
+	}
+	want := expectEvents(rest[:len(rest)-1])
+	drain := time.Now().Add(900 * time.Second)
+	for cap.count() < want && time.Now().Before(drain) {
+		time.Sleep(5 * time.Millisecond)
+	}
 	time.Sleep(time.Duration(in.QuietMs) * time.Millisecond)
 	deadline := time.Now().Add(60 * time.Second)
 	for cap.portscans() == 0 && time.Now().Before(deadline) {
@@ -1504,7 +1515,7 @@ func main() {
 		} else if in.Compact {
 			kind = "scan-" + in.Mode
 		} else if strings.HasPrefix(in.Note, "decoder-") {
-			kind = in.Note + "-" + in.Mode
+			kind = in.Note[:11] + "-" + in.Mode // decoder-udp / decoder-tcp
 		} else if len(in.Steps) > 0 {
 			kind = "conn-" + in.Mode
 			hdist["connection-histories"]++
